@@ -89,12 +89,13 @@ def regenerate(log):
     import gen_lean
     fl = effects.facts({"load_module"})
     fd = effects.facts({"disassemble_file", "disco", "disco_loop", "disco_loop_asm_format"})
-    eff = [gen_lean.HDR, "namespace XV.Gen\n",
+    eff = [gen_lean.HDR, "import XV.Base.Str\n", "namespace XV.Gen\n",
            "/-- exec/eval/compile/__import__/open-for-write/os.* call sites reachable from load_module -/\n",
            "def loadModuleDanger : List String := %s\n" % gen_lean.lstrs(fl["danger"]),
            "def loadModuleReachable : Nat := %d\n" % fl["reachable"],
            "/-- print()/sys.stdout.write() sites (not directed at an explicit stream) reachable from disassemble_file -/\n",
            "def disasmStdoutSites : List String := %s\n" % gen_lean.lstrs(fd["outs"]),
+           "def disasmStdoutFiles : List XV.Str := %s\n" % gen_lean.lSs([x.split(":")[0] for x in fd["outs"]]),
            "def disasmReachable : Nat := %d\n" % fd["reachable"],
            "end XV.Gen\n"]
     gen_lean.write_if_changed(os.path.join(LEAN, "XV", "Gen", "Effects.lean"), "".join(eff))
